@@ -500,7 +500,7 @@ class SymX:
     __str__ = __repr__
 
     def __format__(self, spec):
-        return '<sym>'
+        return token_for(self)
 
     # attributes numpy scalars have and elfi occasionally touches
     @property
@@ -514,6 +514,18 @@ class SymX:
     @property
     def shape(self):
         return ()
+
+
+TOKENS = []
+
+
+def token_for(v):
+    """Formatting a symbolic value into a string yields a token that the harness can map back to the term."""
+    for i, t in enumerate(TOKENS):
+        if t is v or (type(t) is type(v) and t.t.eq(v.t)):
+            return '<<sym%d>>' % i
+    TOKENS.append(v)
+    return '<<sym%d>>' % (len(TOKENS) - 1)
 
 
 def _div(a, b):
@@ -681,7 +693,7 @@ class SymInt:
         return 'SymInt(%s)' % (self.t,)
 
     def __format__(self, spec):
-        return '<symint>'
+        return token_for(self)
 
 
 # --------------------------------------------------------------------------
@@ -875,6 +887,7 @@ class SymCtx:
         self.solver.set('timeout', self.branch_timeout_ms)
         self.cex = None
         self.tables = {}
+        del TOKENS[:]
 
     # ---- solver plumbing
     def _flush(self):
